@@ -343,8 +343,173 @@ def run(repo, chk):
                         bad = f'Span({a},{b}) | Span({c},{d}) = {u2}'
     chk.expect(bad is None and str(Cursor(2, 4)) == '3:5' and Cursor(1, 9) < Cursor(2, 0), 'C10.X5', 'Span / Cursor algebra',
                bad or 'union = (min start, max end); cursors order by (line, column); printed 1-based', 'hidc/lexer/scanner.py')
+    _option_order(repo, chk, cgc)
+    _line_indexing(repo, chk)
+    _labels_defined(repo, chk, gf)
     chk.not_decided = ['implicit exceptions outside the partial-builtin table', 'recursion depth (excluded by the property)',
                        'acceptance of the output by the real Sphinx assembler']
+
+
+def _option_order(repo, chk, cgc):
+    """Quantities derived from the word size (1 << (8*word_size - 1) ...) are only meaningful once the word size
+    has been validated: `-m 0` passes the command line's own multiple-of-8 test, and a negative shift count raises
+    ValueError.  In __post_init__ nothing that reads word_size (directly or through a property / method of CodeGen)
+    may be evaluated before the statement that rejects a too-small word size."""
+    fns = {n.name: n for n in cgc.body if isinstance(n, ast.FunctionDef)}
+    pi = fns.get('__post_init__')
+    if pi is None:
+        return
+    # attributes of CodeGen that transitively read self.word_size
+    reads = {}
+    for name, fn in fns.items():
+        reads[name] = {n.attr for n in ast.walk(fn) if isinstance(n, ast.Attribute) and isinstance(n.value, ast.Name) and n.value.id == 'self'}
+    derived = {'word_size'}
+    changed = True
+    while changed:
+        changed = False
+        for name, r in reads.items():
+            if name not in derived and name != '__post_init__' and r & derived:
+                derived.add(name)
+                changed = True
+
+    def is_ws_guard(st):
+        return isinstance(st, ast.If) and 'self.word_size' in src(st.test) and not (derived - {'word_size'}) & {
+            n.attr for n in ast.walk(st.test) if isinstance(n, ast.Attribute)} and all(isinstance(b, ast.Raise) for b in st.body) \
+            and not st.orelse
+    guard_at = next((i for i, st in enumerate(pi.body) if is_ws_guard(st)), None)
+    if guard_at is None:
+        chk.fail('C10.X4', 'CodeGen.__post_init__::word size guard', 'no statement rejects a too-small word size', GEN, pi.lineno)
+        return
+    early = []
+    for st in pi.body[:guard_at]:
+        used = {n.attr for n in ast.walk(st) if isinstance(n, ast.Attribute) and isinstance(n.value, ast.Name) and n.value.id == 'self'}
+        if used & derived:
+            early.append((st.lineno, sorted(used & derived)))
+    chk.expect(not early, 'C10.X4', 'CodeGen.__post_init__::word size validated before use',
+               f'evaluated before the word-size guard: {early} (quantities derived from word_size shift by 8*word_size-1: a word size '
+               'of 0 raises ValueError instead of a diagnostic)', GEN, pi.body[guard_at].lineno)
+
+
+def _line_indexing(repo, chk):
+    """An empty file has no lines.  Every index into a source's line list must be dominated by a non-emptiness
+    test of that list (SourceCode.__getitem__ maps the empty source to ''), except where the index is the line
+    of an existing span (diagnostic rendering: spans exist only inside existing lines)."""
+    chk.rule('C10.X7', 'the line list of a source is only indexed under a non-emptiness test (or by the line of an existing span)')
+    EXEMPT = {('hidc/errors.py', 'get_info'): 'indexed by span.start.line of a reported span; a span implies the line exists'}
+    n_sites = 0
+    for rel in sorted(repo.files):
+        if not rel.startswith('hidc/'):
+            continue
+        for fn in ast.walk(repo.module(rel)):
+            if not isinstance(fn, (ast.FunctionDef, ast.AsyncFunctionDef)):
+                continue
+            for n in ast.walk(fn):
+                if isinstance(n, ast.Subscript) and isinstance(n.value, ast.Attribute) and n.value.attr == 'lines' \
+                        and isinstance(n.ctx, ast.Load) and not isinstance(n.slice, ast.Slice):
+                    n_sites += 1
+                    obj = src(n.value)
+                    guarded = False
+                    for st in ast.walk(fn):
+                        if isinstance(st, ast.If) and st.lineno <= n.lineno:
+                            t = src(st.test)
+                            if t == f'not {obj}' and st.body and isinstance(st.body[-1], (ast.Return, ast.Raise)) and st.end_lineno < n.lineno:
+                                guarded = True
+                            if t in (obj, f'len({obj})', f'{obj} != []') and st.lineno <= n.lineno <= st.end_lineno and \
+                                    any(n in list(ast.walk(b)) for b in st.body):
+                                guarded = True
+                    why = EXEMPT.get((rel, fn.name))
+                    chk.expect(guarded or why is not None, 'C10.X7', f'{rel}::{fn.name}::{src(n)}',
+                               why or 'the line list is indexed without a non-emptiness test: a zero-byte source raises IndexError', rel, n.lineno)
+    chk.floor('line-list index sites', n_sites, 2)
+
+
+def _labels_defined(repo, chk, gf):
+    """On every emission path, a label obtained from add_label that is referenced (jumped to, handed to a helper,
+    stored for break/continue) must be defined by exactly one Label emission on that path; otherwise hidc reports
+    success but the assembler rejects the file (undefined or duplicate name)."""
+    chk.rule('C10.X8', 'label def-use on every emission path: a referenced add_label() label is defined exactly once on the path')
+
+    def uses_in(node, name, guards, out):
+        """Collect (guards) for each mention of `name` in `node`, tracking IfExp tests on the way down."""
+        if isinstance(node, ast.IfExp):
+            uses_in(node.test, name, guards, out)
+            t = src(node.test)
+            uses_in(node.body, name, guards + [(t, True)], out)
+            uses_in(node.orelse, name, guards + [(t, False)], out)
+            return
+        if isinstance(node, ast.Name) and node.id == name:
+            out.append(list(guards))
+            return
+        for c in ast.iter_child_nodes(node):
+            uses_in(c, name, guards, out)
+
+    def norm(text, truth):
+        while text.startswith('not '):
+            text, truth = text[4:], not truth
+        return text, truth
+
+    n_labels = 0
+    for fname in gf.gen_methods:
+        seen = set()
+        for p, ev in gf.inlined(fname):
+            if p.outcome == 'raise':
+                continue
+            known = {}
+            for e in ev:
+                if e.kind == 'cond':
+                    t, v = norm(e.text, e.truth)
+                    known[t] = v
+            labels = {}
+            for i, e in enumerate(ev):
+                if e.kind == 'assign' and isinstance(e.value, ast.Call) and src(e.value.func) == 'self.add_label' and e.target.isidentifier():
+                    labels[e.target] = i
+                elif e.kind == 'call' and e.func == 'self.add_label' and isinstance(e.bound, str):
+                    labels[e.bound] = i
+            # events for calls nested in another event's operands are covered (with their IfExp guards) by that event
+            nested = set()
+            for e in ev:
+                for a in list(e.args) + list(e.kwargs.values()):
+                    if isinstance(a, ast.AST):
+                        nested |= {id(x) for x in ast.walk(a)}
+            for lab, at in labels.items():
+                defs = 0
+                used = []
+                for e in ev[at + 1:]:
+                    if e.node is not None and id(e.node) in nested:
+                        continue
+                    if e.kind == 'emit' and e.ctor == 'asm.Label' and e.args and src(e.args[0]) == lab:
+                        defs += 1
+                        continue
+                    if e.kind == 'assign' and e.target == lab:
+                        break           # rebound (next loop iteration)
+                    nodes = list(e.args) + list(e.kwargs.values()) + ([e.value] if e.kind in ('assign', 'return') and isinstance(e.value, ast.AST) else [])
+                    if e.kind in ('sub', 'call', 'silent', 'emit', 'assign', 'return', 'splice'):
+                        for a in nodes:
+                            if not isinstance(a, ast.AST):
+                                continue
+                            found = []
+                            uses_in(a, lab, [], found)
+                            for g in found:
+                                active = True
+                                for t, v in g:
+                                    t, v = norm(t, v)
+                                    if t in known and known[t] != v:
+                                        active = False
+                                if active:
+                                    used.append(e)
+                key = f'{fname}::{lab}'
+                n_labels += 1
+                if defs > 1 and key + '#dup' not in seen:
+                    seen.add(key + '#dup')
+                    chk.fail('C10.X8', key, f'Label({lab}) is emitted {defs} times on one path (duplicate definition)', GEN, ev[at].line)
+                if used and defs == 0 and key not in seen:
+                    seen.add(key)
+                    conds = {t: v for t, v in known.items() if 'goto' in t or 'end' in t}
+                    chk.fail('C10.X8', key, f'`{lab}` is referenced by `{used[0].short()[:90]}` but Label({lab}) is not emitted on the path '
+                             f'with {conds}: the output names an undefined label', GEN, used[0].line)
+        if not any(k.startswith(f'{fname}::') for k in seen):
+            chk.ok('C10.X8', fname, 'every referenced label is defined once on every path')
+    chk.floor('label instances on paths', n_labels, 100)
 
 
 def _span_like(n):
